@@ -19,27 +19,27 @@ var props = map[string]propSpec{
 		MinReach: []string{"breaker_tripped", "breaker_reset", "breaker_reopened", "half_open_cap_hit", "stale_completion", "stale_completion_across_2_generations", "half_open_cap_with_stale_inflight"}},
 	"C16": {Engine: "sched", Cover: []string{"schedule|"}, QuickRuns: 40000, QuickSecs: 40, ThoroughS: 600, Components: schedComponents,
 		MinReach: []string{"singleflight_join", "late_join_between_completion_and_key_removal", "wrapper_merge"}},
-	"C01": {Engine: "world", Cover: []string{"C05|", "C13.A1", "C04.A3"}, QuickRuns: 1200, QuickSecs: 40, ThoroughS: 600, Components: worldComponents,
+	"C01": {Engine: "world", Cover: []string{"C05|", "C13.A1", "C04.A3"}, QuickRuns: 3000, QuickSecs: 60, ThoroughS: 600, Components: worldComponents,
 		MinReach: []string{"cross_host_cookie_refused", "wrong_provider_refused", "lifetime_expired_refused", "skip_auth_arrival", "revalidation_refused"}},
-	"C02": {Engine: "world", Also: "sched", AlsoRuns: 8000, Cover: []string{"C06.A", "C08.A2"}, QuickRuns: 1200, QuickSecs: 40, ThoroughS: 600, Components: worldComponents},
-	"C03": {Engine: "world", QuickRuns: 1200, QuickSecs: 40, ThoroughS: 600, Components: worldComponents},
-	"C04": {Engine: "world", Cover: []string{"C05|", "C01|due"}, QuickRuns: 1200, QuickSecs: 40, ThoroughS: 600, Components: worldComponents,
+	"C02": {Engine: "world", Also: "sched", AlsoRuns: 8000, Cover: []string{"C06.A", "C08.A2"}, QuickRuns: 3000, QuickSecs: 60, ThoroughS: 600, Components: worldComponents},
+	"C03": {Engine: "world", QuickRuns: 3000, QuickSecs: 60, ThoroughS: 600, Components: worldComponents},
+	"C04": {Engine: "world", Cover: []string{"C05|", "C01|due"}, QuickRuns: 3000, QuickSecs: 60, ThoroughS: 600, Components: worldComponents,
 		MinReach: []string{"lifetime_expired_refused", "revalidation_refused", "due_check_ok_refresh", "due_check_ok_validate"}},
-	"C05": {Engine: "world", Cover: []string{"C05|"}, QuickRuns: 1200, QuickSecs: 40, ThoroughS: 600, Components: worldComponents,
+	"C05": {Engine: "world", Cover: []string{"C05|"}, QuickRuns: 3000, QuickSecs: 60, ThoroughS: 600, Components: worldComponents,
 		MinReach: []string{"grace_fallback_served", "grace_expired_refused", "metric_provider_error_fallback"}},
-	"C06": {Engine: "world", Cover: []string{"C11.A1"}, QuickRuns: 1200, QuickSecs: 40, ThoroughS: 600, Components: worldComponents,
+	"C06": {Engine: "world", Cover: []string{"C11.A1"}, QuickRuns: 3000, QuickSecs: 60, ThoroughS: 600, Components: worldComponents,
 		MinReach: []string{"callback_variant_crossed", "callback_variant_state-equals-cookie", "callback_variant_replay", "proxy_session_issued"}},
-	"C07": {Engine: "world", QuickRuns: 1500, QuickSecs: 40, ThoroughS: 600, Components: worldComponents, MinReach: []string{"unsigned_redirect_refused", "auth_code_issued"}},
-	"C08": {Engine: "world", QuickRuns: 1500, QuickSecs: 40, ThoroughS: 600, Components: worldComponents, MinReach: []string{"backchannel_refused"}},
-	"C09": {Engine: "world", QuickRuns: 1200, QuickSecs: 40, ThoroughS: 600, Components: worldComponents, MinReach: []string{"auth_code_issued", "auth_session_created"}},
-	"C10": {Engine: "world", QuickRuns: 1500, QuickSecs: 40, ThoroughS: 600, Components: worldComponents, MinReach: []string{"auth_session_created"}},
-	"C11": {Engine: "world", Cover: []string{"C06.A"}, QuickRuns: 1200, QuickSecs: 40, ThoroughS: 600, Components: worldComponents},
-	"C12": {Engine: "world", QuickRuns: 1200, QuickSecs: 40, ThoroughS: 600, Components: worldComponents, MinReach: []string{"l5_tamper_judged"}},
-	"C13": {Engine: "world", Cover: []string{"C01.A2"}, QuickRuns: 1200, QuickSecs: 40, ThoroughS: 600, Components: worldComponents, MinReach: []string{"cross_host_cookie_refused"}},
-	"C14": {Engine: "world", QuickRuns: 1200, QuickSecs: 40, ThoroughS: 600, Components: worldComponents, MinReach: []string{"c14_load_refused"}},
+	"C07": {Engine: "world", QuickRuns: 3000, QuickSecs: 60, ThoroughS: 600, Components: worldComponents, MinReach: []string{"unsigned_redirect_refused", "auth_code_issued"}},
+	"C08": {Engine: "world", QuickRuns: 3000, QuickSecs: 60, ThoroughS: 600, Components: worldComponents, MinReach: []string{"backchannel_refused"}},
+	"C09": {Engine: "world", QuickRuns: 3000, QuickSecs: 60, ThoroughS: 600, Components: worldComponents, MinReach: []string{"auth_code_issued", "auth_session_created"}},
+	"C10": {Engine: "world", QuickRuns: 3000, QuickSecs: 60, ThoroughS: 600, Components: worldComponents, MinReach: []string{"auth_session_created"}},
+	"C11": {Engine: "world", Cover: []string{"C06.A"}, QuickRuns: 3000, QuickSecs: 60, ThoroughS: 600, Components: worldComponents},
+	"C12": {Engine: "world", QuickRuns: 3000, QuickSecs: 60, ThoroughS: 600, Components: worldComponents, MinReach: []string{"l5_tamper_judged"}},
+	"C13": {Engine: "world", Cover: []string{"C01.A2"}, QuickRuns: 3000, QuickSecs: 60, ThoroughS: 600, Components: worldComponents, MinReach: []string{"cross_host_cookie_refused"}},
+	"C14": {Engine: "world", QuickRuns: 3000, QuickSecs: 60, ThoroughS: 600, Components: worldComponents, MinReach: []string{"c14_load_refused"}},
 	"C17": {Engine: "sched", Cover: []string{"schedule|"}, QuickRuns: 20000, QuickSecs: 40, ThoroughS: 600, Components: schedComponents,
 		MinReach: []string{"answer_from_cache", "partial_cache_fallback", "localcache_hit", "refresh_loop_started", "refresh_loop_already_running", "bounded_progress_checked", "porcupine_ok"}},
-	"C18": {Engine: "world", QuickRuns: 1200, QuickSecs: 40, ThoroughS: 600, Components: worldComponents, MinReach: []string{"https_redirect"}},
-	"C19": {Engine: "world", QuickRuns: 1200, QuickSecs: 40, ThoroughS: 600, Components: worldComponents, MinReach: []string{"signed_out", "signout_revoke_failed"}},
-	"C20": {Engine: "world", QuickRuns: 1200, QuickSecs: 40, ThoroughS: 600, Components: worldComponents, MinReach: []string{"c20_twin_compared"}},
+	"C18": {Engine: "world", QuickRuns: 3000, QuickSecs: 60, ThoroughS: 600, Components: worldComponents, MinReach: []string{"https_redirect"}},
+	"C19": {Engine: "world", QuickRuns: 3000, QuickSecs: 60, ThoroughS: 600, Components: worldComponents, MinReach: []string{"signed_out", "signout_revoke_failed"}},
+	"C20": {Engine: "world", QuickRuns: 3000, QuickSecs: 60, ThoroughS: 600, Components: worldComponents, MinReach: []string{"c20_twin_compared"}},
 }
